@@ -411,6 +411,8 @@ pub const TAGS_DELIVERY: &[&str] = &[
     "sched_dup",
 ];
 
+pub const TAGS_DELIVERY_SINKS: &[&str] = &["delivery_dup", "delivery_invented", "delivery_value", "delivery_lost", "sink_content", "sink_capacity", "sink_order"];
+
 /// One sender with an output connected through every connection kind.
 fn all_kinds(cap: usize, volume: usize) -> Arc<BenchSpec> {
     let ops: Vec<Op> = (0..volume).map(|k| sendp(0, 2, k as i64)).collect();
@@ -566,6 +568,50 @@ pub fn c03(tier: &str) -> Vec<Family> {
         }
     }
     fams.push(Family::new("late_connections", TAGS_DELIVERY, sc_l).cap(cap));
+
+    // Periodic actions of an event source created before (some of) the source's connections
+    // exist: each occurrence goes to the models connected when it is processed.
+    let mut sc_s = vec![];
+    for (iname, initial) in [("none", vec![]), ("one", vec![to(0)])] {
+        let mut spec = BenchSpec::new(vec![NodeSpec::new("A", 2), NodeSpec::new("B", 2), NodeSpec::new("C", 2)]);
+        spec.srcs = vec![initial.clone()];
+        let spec = Arc::new(spec);
+        for kd in [SKind::Periodic(1), SKind::KeyedPeriodic(1), SKind::Periodic(2)] {
+            for (ci, c1) in [to(1), tom(1, Mode::Map(500)), tom(1, Mode::Filter(0))].into_iter().enumerate() {
+                sc_s.push(scn(
+                    format!("late_source/{}/{:?}/conn{}", iname, kd, ci),
+                    &spec,
+                    vec![
+                        Cmd::SchedSrc { src: 0, kind: kd, when: When::Abs(1), tag: 2, val: 4, slot: 0 },
+                        Cmd::ConnectSrc { src: 0, conn: c1 },
+                        Cmd::Step,
+                        Cmd::ConnectSrc { src: 0, conn: tom(2, Mode::Map(7)) },
+                        Cmd::Step,
+                        Cmd::StepUntil(When::Abs(4)),
+                    ],
+                ));
+            }
+        }
+    }
+    fams.push(Family::new("late_source_connections", TAGS_DELIVERY, sc_s).cap(cap));
+    // Sinks that fill up to exactly their capacity and beyond (what the sink holds afterwards
+    // is its documented retention: the most recent `capacity` events).
+    let mut sc_k = vec![];
+    for cap_s in [1usize, 2, 3] {
+        for vol in 1..=cap_s + 2 {
+            let ops: Vec<Op> = (0..vol).map(|k| sendp(0, 2, k as i64)).collect();
+            let a = NodeSpec::new("A", 4).script(1, ops).out(vec![
+                Conn::Buf { sink: 0, mode: Mode::Plain },
+                to(1),
+                Conn::Buf { sink: 1, mode: Mode::Map(7) },
+                Conn::Buf { sink: 2, mode: Mode::Filter(1) },
+            ]);
+            let mut spec = BenchSpec::new(vec![a, NodeSpec::new("B", 2)]);
+            spec.bufs = vec![cap_s, cap_s, cap_s];
+            sc_k.push(scn(format!("small_sinks/cap{}/vol{}", cap_s, vol), &Arc::new(spec), vec![pe(0, 1, 0), pe(0, 1, 1)]));
+        }
+    }
+    fams.push(Family::new("small_sinks", TAGS_DELIVERY_SINKS, sc_k).cap(cap));
 
     // Scheduler-originated batches: k same-time events from one origin into a
     // mailbox of capacity c (the compound future has to wait for space).
